@@ -11,6 +11,7 @@ import time
 
 from . import common, e1, e3, kani_runner
 from .common import log
+from . import probes
 from .mir import engine as mir_engine, exec as mx
 
 PID = "C15"
@@ -150,7 +151,7 @@ def e3_kernel(out):
         if ok:
             obl.discharged += 1
         else:
-            out.violation("entry-kinds|" + entry, "-", "%s does not start its core builder from HelperAttributeKinds::new(true): %s" % (entry, [r.events for r in res][:2]))
+            probes.structural(out, "entry-kinds|" + entry, "%s does not start its core builder from HelperAttributeKinds::new(true): %s" % (entry, [r.events for r in res][:2]), "C15.kinds")
     # (b) from_root merges macro arguments and derive_ex attributes, in this order
     ex = eng.executor(opaque_local={"DeriveEntry::from_args_list", "parse_derive_ex_attrs"}, trace={"DeriveEntry::from_args_list", "parse_derive_ex_attrs", "syn::parse2", "Vec::push", "Extend::Vec::extend"})
     fn = eng.find("DeriveEntry::from_root")
@@ -175,8 +176,8 @@ def e3_kernel(out):
     if ok and n_with_attr >= 1:
         obl.discharged += 1
     else:
-        out.violation("from_root-merge", "-", "DeriveEntry::from_root does not merge the macro arguments with every derive_ex attribute of the item: %s" % (
-            [[e[0] for e in r.events] for r in res][:4],))
+        probes.structural(out, "from_root-merge", "DeriveEntry::from_root does not merge the macro arguments with every derive_ex attribute of the item: %s" % (
+            [[e[0] for e in r.events] for r in res][:4],), "C15.merge")
     # (c) from_args_list keeps the list order
     ex = eng.executor(opaque_local={"DeriveItemKind::from_ident", "Bounds::from"}, trace={"Vec::push"}, slice_bound=2)
     fn = eng.find("DeriveEntry::from_args_list")
@@ -196,7 +197,7 @@ def e3_kernel(out):
         if seq == want and len(seq) == len(set(seq)) and len(seq) >= n_items:
             obl.discharged += 1
         else:
-            out.violation("from_args_list-order", "-", "DeriveEntry::from_args_list does not yield one entry per listed trait in list order: %s" % (seq,))
+            probes.structural(out, "from_args_list-order", "DeriveEntry::from_args_list does not yield one entry per listed trait in list order: %s" % (seq,), "C15.order")
     # (d) every entry's arguments are its own (nothing carried over from the neighbouring trait or list)
     from . import e3_extras
     o2 = e3_extras.safe(e3_extras.entry_args_provenance, out, PID)
